@@ -201,6 +201,7 @@ def finish(ctx, level, explanation, checker_cmd, t0, seed=0):
             {"rule": o.rule, "construct": o.construct, "what": k["what"]}
             for (o, k) in matched],
         "notes": ctx.notes,
+        "selftest": getattr(ctx, "selftest", None),
         "evaluations": nob,
         "distinct_nontrivial": len(set(o.key() for o in ctx.obligations)),
         "rule": "one obligation per (rule, construct) instance found in /repo's "
